@@ -416,6 +416,10 @@ func (p *parser) handleTypeArgs() *token {
 			params := append(make([]px.Value, 0, ll.Len()+1), WrapString(dt))
 			p.d.Add(NewDeferred(`new`, ll.AppendTo(params)...))
 		} else {
+			if ll.Len() == 0 {
+				// Deferred(...) needs at least the name of what is deferred
+				panic(badSyntax(&token{i: rightParen, s: `)`}, exElement))
+			}
 			params := ll.Slice(1, ll.Len()).AppendTo(make([]px.Value, 0, ll.Len()-1))
 			p.d.Add(NewDeferred(ll.At(0).String(), params...))
 		}
